@@ -174,7 +174,7 @@ class Exec:
                 if info.get('k') == 'fndef':
                     res = info.get('resolved') or {}
                     return FnVal(res.get('name') or info['name'], info)
-                if info.get('k') == 'closure': return Agg('closure', f'closure{info["def"]}', 0, [])
+                if info.get('k') == 'closure': return Agg('closure', f'{crate}:closure{info["def"]}', 0, [])
                 return Opaque(('zst', t['display'] if t else '?'))
             if isinstance(k, dict) and 'Allocated' in k:
                 by = k['Allocated']['bytes']
@@ -243,9 +243,9 @@ class Exec:
                 kind, ops = r['Aggregate']; vals = [operand(o) for o in ops]
                 if kind == 'Tuple': return Agg('tuple', 'tuple', 0, vals)
                 if 'Adt' in kind: return Agg('adt', f'adt{kind["Adt"][0]}', kind['Adt'][1], vals)
-                if 'Closure' in kind: return Agg('closure', f'closure{kind["Closure"][0]}', 0, vals)
+                if 'Closure' in kind: return Agg('closure', f'{crate}:closure{kind["Closure"][0]}', 0, vals)
                 if 'Coroutine' in kind:
-                    a = Agg('coroutine', f'coroutine{kind["Coroutine"][0]}', 0, vals); a.state = 0; return a
+                    a = Agg('coroutine', f'{crate}:coroutine{kind["Coroutine"][0]}', 0, vals); a.state = 0; return a
                 if 'Array' in kind: return VecV(vals)
             raise Unmodelled(f'rvalue {list(r.keys())}')
         bb = 0; steps = 0
@@ -287,7 +287,10 @@ class Exec:
             if 'Call' in t:
                 c = t['Call']; f = operand(c['func']); args2 = [operand(a) for a in c['args']]
                 if not isinstance(f, FnVal): raise Unmodelled(f'indirect call {f!r}')
-                r = self.call_named(f.name, args2, f.info)
+                try: r = self.call_named(f.name, args2, f.info)
+                except Unmodelled as u:
+                    if 'in fn' not in str(u): raise Unmodelled(f'{u} in fn {fn["name"]} bb{bb} args={[type(x).__name__ for x in args2]}')
+                    raise
                 if c['target'] is None: raise Unmodelled(f'diverging call {f.name} returned')
                 place(c['destination']).set(r); bb = c['target']; continue
             raise Unmodelled(f'terminator {t if isinstance(t, str) else list(t.keys())}')
@@ -491,7 +494,7 @@ def index_closures(db):
         info = t['info']
         if info.get('k') in ('closure', 'coroutine'):
             for f in db.fns.get(info['name'], []):
-                if f['crate'] == crate: f['closure_key'] = f'{info["k"]}{info["def"]}'
+                if f['crate'] == crate: f['closure_key'] = f'{crate}:{info["k"]}{info["def"]}'
 
 # ------------------------------------------------------------------ experiments
 def exp_implied_block(db, N=4):
@@ -547,11 +550,114 @@ def exp_implied_block(db, N=4):
     print(f'C02 lemma A, N={N}: paths={ex.stats["paths"]} queries={ex.stats["queries"]} calls={ex.stats["calls"]} infeasible={ex.stats.get("infeasible", 0)} time={time.time() - t0:.1f}s violations={len(bad)}')
     for x in bad[:3]: print('  ', x)
 
+
+# ------------------------------------------------------------------ experiment: async fn (coroutine) execution — Limiter::acquire
+def ok(v): return Agg('adt', 'Result', 0, [v])
+def err(v): return Agg('adt', 'Result', 1, [v])
+def ready(v): return Agg('adt', 'Poll', 0, [v])
+CANCELED = Agg('adt', 'Canceled', 0, [])
+class EnvFuture:
+    def __init__(self, kind, args): self.kind = kind; self.args = args
+
+def exp_limiter(db):
+    """One call of Limiter::acquire from an arbitrary state satisfying the documented invariant.
+    Clock/ticks abstract; awaited futures answered by contract (see DESIGN C15)."""
+    W = 64
+    t0 = time.time()
+    ACQ = 'zksync_concurrency::limiter::Limiter::acquire'
+    BODY = 'zksync_concurrency::limiter::Limiter::acquire::{closure#0}'
+    def body(ex):
+        I = lambda name, bits, signed=False: BV(z3.BitVec(name, bits), signed)
+        ticks, permits, reserved, burst, refresh, p = I('ticks', 128, True), I('permits', W), I('reserved', W), I('burst', W), I('refresh', 128, True), I('p', W)
+        ex.assume(z3.And(z3.ULE(reserved.e, permits.e), z3.ULE(permits.e, burst.e), ticks.e >= 0, ticks.e < (1 << 100), z3.ULT(burst.e, 1 << 40), refresh.e < (1 << 62)))
+        state = Agg('adt', 'State', 0, [ticks, permits, reserved])
+        state_cell = Cell(state)
+        pre = (ticks.e, permits.e, reserved.e)
+        lim = Agg('adt', 'Limiter', 0, [Opaque('start'), refresh, burst, Opaque(('std_mutex_sender', state_cell)), Opaque(('tokio_mutex_receiver', state_cell))])
+        ctx = Opaque('ctx')
+        log = []
+        need_holder = {}
+        def m_poll(ex_, n, a):
+            fut = a[0].fields[0].get() if isinstance(a[0], Agg) else a[0].get()
+            if isinstance(fut, Agg) and fut.kind == 'coroutine':
+                raise Unmodelled('nested coroutine poll ' + fut.name)
+            k = fut.kind
+            if k == 'canceled': log.append('await canceled'); return ready(UNIT)
+            if k == 'lock':
+                if ex_.branch(z3.Bool('lock_canceled')): return ready(err(CANCELED))
+                return ready(ok(Agg('adt', 'LocalMutexGuard', 0, [Opaque(('guard', state_cell))])))
+            if k == 'wait_for':
+                pred = fut.args[2]
+                holds = call_closure(ex_, Ref(Cell(pred)), [Ref(state_cell)])
+                if ex_.branch(holds): return ready(ok(Opaque(('watch_ref', state_cell))))
+                log.append('wait_for canceled'); return ready(err(CANCELED))
+            if k == 'sleep':
+                if ex_.branch(z3.Bool('sleep_canceled')): log.append('sleep canceled'); return ready(err(CANCELED))
+                log.append('slept'); return ready(ok(UNIT))
+            raise Unmodelled('poll of ' + k)
+        models = dict(STD_MODELS); R = list(STD_MODELS['__re__']); models['__re__'] = R
+        R += [
+            (r'zksync_concurrency::ctx::Ctx::canceled', lambda e, n, a: EnvFuture('canceled', a)),
+            (r'zksync_concurrency::sync::lock::<.*>', lambda e, n, a: EnvFuture('lock', a)),
+            (r'zksync_concurrency::sync::wait_for(::<.*>)?', lambda e, n, a: EnvFuture('wait_for', a)),
+            (r'zksync_concurrency::ctx::Ctx::sleep_until_deadline', lambda e, n, a: EnvFuture('sleep', a)),
+            (r'.*IntoFuture>::into_future|std::future::IntoFuture::into_future', m_identity),
+            (r'std::pin::Pin::<.*>::new_unchecked', lambda e, n, a: Agg('adt', 'Pin', 0, [a[0]])),
+            (r'.* as std::future::Future>::poll|std::future::Future::poll', m_poll),
+            (r'zksync_concurrency::sync::(lock|wait_for)(::<.*>)?::\{closure#0\}', m_poll),
+            (r'<std::result::Result<.*> as std::ops::Try>::branch', lambda e, n, a: Agg('adt', 'ControlFlow', 0, [a[0].fields[0]]) if a[0].variant == 0 else Agg('adt', 'ControlFlow', 1, [err(a[0].fields[0])])),
+            (r'<std::result::Result<.*> as std::ops::FromResidual<.*>>::from_residual', lambda e, n, a: err(a[0].fields[0])),
+            (r'zksync_concurrency::sync::LocalMutexGuard::<.*>::into_async', lambda e, n, a: a[0].fields[0]),
+            (r'<tokio::sync::MutexGuard<.*> as std::ops::DerefMut>::deref_mut', lambda e, n, a: Ref(Cell(Opaque(('receiver', state_cell))))),
+            (r'<tokio::sync::watch::Ref<.*> as std::ops::Deref>::deref', lambda e, n, a: Ref(state_cell)),
+            (r'core::num::<impl usize>::saturating_sub', lambda e, n, a: BV(z3.If(z3.UGE(a[0].e, a[1].e), a[0].e - a[1].e, z3.BitVecVal(0, W)))),
+            (r'core::num::<impl usize>::saturating_add', lambda e, n, a: BV(z3.If(z3.ULT(a[0].e + a[1].e, a[0].e), z3.BitVecVal(2**W - 1, W), a[0].e + a[1].e))),
+            (r'core::num::<impl i128>::saturating_mul', lambda e, n, a: Opaque(('nanos', a[0], a[1]))),
+            (r'zksync_concurrency::limiter::duration_or_max', lambda e, n, a: Opaque(('duration', a[0]))),
+            (r'time::Instant::checked_add', lambda e, n, a: some(Opaque(('deadline', a[1]))) if e.branch(z3.Bool('deadline_finite')) else none()),
+            (r'std::sync::Mutex::<.*>::lock', lambda e, n, a: ok(Opaque(('std_guard', state_cell)))),
+            (r'std::result::Result::<.*>::unwrap', lambda e, n, a: a[0].fields[0] if a[0].variant == 0 else (_ for _ in ()).throw(Panic('unwrap on Err'))),
+            (r'<std::sync::MutexGuard<.*> as std::ops::Deref>::deref', lambda e, n, a: Ref(Cell(Opaque(('sender', state_cell))))),
+            (r'tokio::sync::watch::Sender::<.*>::send_if_modified', lambda e, n, a: call_closure(e, a[1], [Ref(state_cell)])),
+            (r'std::cmp::min::<usize>', lambda e, n, a: BV(z3.If(z3.ULE(a[0].e, a[1].e), a[0].e, a[1].e))),
+            (r'zksync_concurrency::limiter::usize_or_max', lambda e, n, a: BV(z3.If(a[0].e > (2**W - 1), z3.BitVecVal(2**W - 1, W), z3.Extract(W - 1, 0, a[0].e)))),
+        ]
+        ex.models = models
+        co = ex.call_named(ACQ, [Ref(Cell(lim)), Ref(Cell(ctx)), p])
+        cocell = Cell(co)
+        r = ex.call_named(BODY, [Agg('adt', 'Pin', 0, [Ref(cocell)]), Opaque('cx')])
+        if r.variant != 0: raise Unmodelled('Pending returned')
+        res = r.fields[0]
+        st = state_cell.v
+        post = (st.fields[0].e, st.fields[1].e, st.fields[2].e)
+        granted = res.variant == 0
+        inv = z3.And(z3.ULE(post[2], post[1]), z3.ULE(post[1], burst.e))
+        if granted:
+            perm = res.fields[0]
+            unl = z3.simplify(perm.fields[0].e == 0)
+            prop = z3.And(inv, z3.Or(perm.fields[0].e == 0, z3.And(perm.fields[0].e == p.e, post[2] == pre[2] + p.e, z3.UGE(post[1], post[2]))))
+        else:
+            prop = z3.And(post[0] == pre[0], post[1] == pre[1], post[2] == pre[2])       # L3: cancel consumes nothing
+        return (granted, tuple(log), prop)
+    ex, results = explore(db, dict(STD_MODELS), body)
+    bad = []
+    kinds = {}
+    for (kind, val), pc in results:
+        if kind == 'panic': bad.append(('panic', val)); continue
+        granted, log, prop = val
+        kinds[(granted, log)] = kinds.get((granted, log), 0) + 1
+        s = z3.Solver(); s.add(*pc); s.add(z3.Not(prop))
+        if s.check() != z3.unsat: bad.append(('violated', granted, log, s.model()))
+    print(f'C15 acquire one-step: paths={ex.stats["paths"]} queries={ex.stats["queries"]} time={time.time() - t0:.1f}s violations={len(bad)}')
+    for k, v in kinds.items(): print('   outcome', k, v)
+    for x in bad[:3]: print('  ', x)
+
 def main():
     prefix = sys.argv[1]; exp = sys.argv[2] if len(sys.argv) > 2 else 'implied'
     t0 = time.time(); db = DB(prefix); index_closures(db)
     print(f'loaded {sum(len(v) for v in db.fns.values())} bodies, {len(db.tys)} types in {time.time() - t0:.1f}s')
     if exp == 'implied': exp_implied_block(db, int(sys.argv[3]) if len(sys.argv) > 3 else 3)
+    if exp == 'limiter': exp_limiter(db)
 
 if __name__ == '__main__':
     main()
